@@ -20,6 +20,13 @@ HARNESS = os.path.join(VERIF, "harness")
 BUILD = os.path.join(VERIF, "build")
 EVID = os.path.join(VERIF, "evidence")
 REPLAY = os.path.join(VERIF, "replay")      # violating traces are kept here (path printed in the VIOLATION line)
+if os.path.realpath(REPO) != "/repo":
+    # Testing the machinery against a scratch worktree (seeded mutants): VERIF_REPO=/tmp/wt python3 tools/checks/cXX.py
+    # builds, evidence and replay files go to a per-worktree directory so that /verif's own results are not disturbed.
+    _h = hashlib.sha1(os.path.realpath(REPO).encode()).hexdigest()[:10]
+    BUILD = os.path.join(VERIF, "build", "alt-" + _h)
+    EVID = os.path.join(BUILD, "evidence")
+    REPLAY = os.path.join(BUILD, "replay")
 NCPU = os.cpu_count() or 4
 
 
@@ -52,18 +59,27 @@ def scratch(prefix="verif-"):
 
 
 def sync_gosum():
-    """harness/go.sum is a copy of /repo/go.sum (the harness has no dependency of its own)."""
+    """harness/go.sum is a copy of /repo/go.sum (the harness has no dependency of its own).
+    Returns extra `go` flags: with VERIF_REPO set, an alternative modfile whose replace points there."""
     src = os.path.join(REPO, "go.sum")
-    dst = os.path.join(HARNESS, "go.sum")
-    if os.path.exists(src):
-        shutil.copyfile(src, dst)
+    if os.path.realpath(REPO) == "/repo":
+        dst = os.path.join(HARNESS, "go.sum")
+        if os.path.exists(src) and (not os.path.exists(dst) or open(src, "rb").read() != open(dst, "rb").read()):
+            shutil.copyfile(src, dst)
+        return []
+    os.makedirs(BUILD, exist_ok=True)
+    mod = open(os.path.join(HARNESS, "go.mod")).read().replace("=> /repo", "=> " + os.path.realpath(REPO))
+    alt = os.path.join(BUILD, "go.mod")
+    if not os.path.exists(alt) or open(alt).read() != mod:
+        open(alt, "w").write(mod)
+    shutil.copyfile(src, os.path.join(BUILD, "go.sum"))
+    return ["-modfile=" + alt]
 
 
 def go_build(pkg, out, tags="verif", race=False, timeout=1500):
     """Build harness package `pkg` (e.g. ./cmd/lease) against /repo's working tree."""
     os.makedirs(BUILD, exist_ok=True)
-    sync_gosum()
-    cmd = ["go", "build", "-tags", tags, "-o", os.path.join(BUILD, out)]
+    cmd = ["go", "build"] + sync_gosum() + ["-tags", tags, "-o", os.path.join(BUILD, out)]
     if race:
         cmd.append("-race")
     cmd.append(pkg)
@@ -77,8 +93,7 @@ def go_build(pkg, out, tags="verif", race=False, timeout=1500):
 
 def go_test_build(pkg, out, tags="verif", race=False, timeout=1500):
     os.makedirs(BUILD, exist_ok=True)
-    sync_gosum()
-    cmd = ["go", "test", "-c", "-tags", tags, "-o", os.path.join(BUILD, out)]
+    cmd = ["go", "test", "-c"] + sync_gosum() + ["-tags", tags, "-o", os.path.join(BUILD, out)]
     if race:
         cmd.append("-race")
     cmd.append(pkg)
